@@ -122,14 +122,23 @@ def compare_tokens(impl_line, model_line, rtol=0.0, atol=0.0):
 
 
 # ----------------------------------------------------------------------------------------------- translators
-def run_translators():
+def run_translators(pid=None):
     """regenerate coq/gen/*.v from /repo; returns a list of (property id or None, error string) — empty = ok.
     An error is tagged with the property whose tie it breaks (None = every property).  Each translator leaves out what
     it could not translate, so the Coq files that need the missing piece stop compiling: a broken translation shows up
-    (as a proof failure) in exactly the properties that depend on it and in no other."""
+    (as a proof failure) in exactly the properties that depend on it and in no other.
+    With a property id, only the translators whose output that property's Coq file depends on are run (the others'
+    files on disk may then describe another tree: they are not part of this property's proof); bin/setup runs all."""
     errs = []
     gen = os.path.join(COQ, "gen")
     os.makedirs(gen, exist_ok=True)
+    needed = None
+    if pid is not None:
+        try:
+            chk = importlib.import_module(pid).CHECK
+            needed = set(os.path.basename(m) for m in romea_closure(chk.get("coq", "Properties_" + pid)) if m.startswith("gen/"))
+        except Exception:  # noqa
+            needed = None
     import constants
     text, e = constants.generate(REPO)
     errs += [(own, "constants.py: " + x) for own, x in e]
@@ -138,21 +147,40 @@ def run_translators():
     if old != text:
         with open(out, "w") as f:
             f.write(text)
+    jobs = []
     import srcfuns
-    errs += [(u, "srcfuns.py: " + x) for u, x in srcfuns.generate_to(gen, REPO)]
-    import concfacts
-    errs += [("C19", "concfacts.py: " + x) for x in concfacts.generate_to(os.path.join(gen, "ConcFacts.v"), REPO)]
+    units = None
+    if needed is not None:
+        units = set(n[len("SrcFuns"):] for n in needed if n.startswith("SrcFuns")) | {pid}
+        units = set(u for u in units if any(srcfuns.unit_of(f[0]) == u for f in srcfuns.FUNCS))
+    if units is None or units:
+        jobs.append(("srcfuns", None, lambda: [(u, "srcfuns.py: " + x) for u, x in srcfuns.generate_to(gen, REPO, units)]))
+    if needed is None or pid == "C19" or "ConcFacts" in needed:
+        import concfacts
+        jobs.append(("concfacts", "C19", lambda: [("C19", "concfacts.py: " + x)
+                                                  for x in concfacts.generate_to(os.path.join(gen, "ConcFacts.v"), REPO)]))
     # further translators: translate/tr_<id>_<what>.py, each with  generate_to(gen_dir, repo) -> [(property id, error)];
     # a translator that raises breaks the tie of the property in its file name
     import glob
     for fn in sorted(glob.glob(os.path.join(VERIF, "translate", "tr_*.py"))):
         name = os.path.basename(fn)[:-3]
         m = re.match(r"tr_(C\d\d)", name)
-        try:
-            mod = importlib.import_module(name)
-            errs += [(u, name + ".py: " + x) for u, x in mod.generate_to(gen, REPO)]
-        except Exception as ex:  # noqa
-            errs.append((m.group(1) if m else None, "%s.py: %r" % (name, ex)))
+        owner = m.group(1) if m else None
+        if needed is not None and owner != pid:
+            outs = set(re.findall(r"[\"'/]([A-Z][A-Za-z0-9_]*)\.v[\"']", open(fn).read()))
+            if not (outs & needed):
+                continue
+
+        def job(name=name, owner=owner):
+            try:
+                mod = importlib.import_module(name)
+                return [(u, name + ".py: " + x) for u, x in mod.generate_to(gen, REPO)]
+            except Exception as ex:  # noqa
+                return [(owner, "%s.py: %r" % (name, ex))]
+        jobs.append((name, owner, job))
+    with ThreadPoolExecutor(max_workers=min(8, max(1, len(jobs)))) as ex:
+        for r in ex.map(lambda j: j[2](), jobs):
+            errs += r
     old_sf = os.path.join(gen, "SrcFuns.v")      # pre-split layout
     for ext in ("v", "vo", "vos", "vok", "glob"):
         if os.path.exists(old_sf[:-1] + ext):
@@ -568,7 +596,7 @@ def run_check(pid, tier="quick", seed=None, replay=None):
     coq = {"ok": False, "obligations": 0, "discharged": 0, "axioms": [], "failed_theorem": None, "theorems": []}
     try:
         # 1. translators
-        terrs = run_translators()
+        terrs = run_translators(pid)
         for own, e in terrs:
             if own is None or own == pid:
                 res.tie_failures.append(("translator", e))
